@@ -306,6 +306,8 @@ def sub_navigation(inp):
         if not tok.contains_name(name) or tok.get_type_of(name).type.value != typesig.ftype_mask(ft):
             raise Violation('navigation', 'get_type_of', inp, f'field {name}: contains_name={tok.contains_name(name)}, get_type_of={tok.get_type_of(name)}')
     for name, (ft, _v) in sc['consts'].items():
+        if name in sc['fields']:
+            continue  # the name is in the declared field tree: the lookup above has said what it must mean
         if not tok.contains_name(name) or tok.get_type_of(name).type.value != typesig.ftype_mask(ft):
             raise Violation('navigation', 'constants', inp, f'constant {name}: contains_name={tok.contains_name(name)}')
     for absent in ('zz_absent', ''):
@@ -382,7 +384,18 @@ def shard(ctx, shard_no, nshards, n):
         ctx.case(repr(inp), any(ft[0] == 'msg' for ft in inp['schema']['fields'].values()), 'navigation', sample=None)
 
     with ctx.timed('navigation'):
-        core.run_hypothesis(ctx, 'navigation', from_tape(lambda ch: {'schema': gen.schemas(ch, depth=3)}, 256), body_n, n // 3)
+        core.run_hypothesis(ctx, 'navigation', from_tape(gen_navigation_case, 256), body_n, n // 3)
+
+
+def gen_navigation_case(ch):
+    sc = gen.schemas(ch, depth=3)
+    if sc['fields'] and ch.int(0, 3) == 0:
+        # a constant named like a field of another kind (MessageType takes it): the field tree says what the name means
+        name = ch.pick(sorted(sc['fields']))
+        kind = sc['fields'][name][0]
+        alt = [c for c in ((('num', 'uint8'), 1), (('str',), '"a"'), (('bool',), True)) if c[0][0] != kind]
+        sc = {'fields': sc['fields'], 'consts': dict(sc['consts'], **{name: ch.pick(alt)})}
+    return {'schema': sc}
 
 
 def sub_nested_array(inp):
